@@ -164,6 +164,33 @@ def build_space(sp):
 def build_system(spec, route="ctor"):
     if route == "dict":
         return S.rdsystem_from_dict(system_dict(spec))
+    if route in ("file", "file-in-script"):
+        # the system dictionary in a JSON file of its own; when the system declares its units explicitly, the declaration
+        # is moved to the PARENT (argument of load_rdsystem / the 'units' of a script dictionary that names the file) and the
+        # file inherits it: the same physical system
+        import json
+        import os
+        import shutil
+        import tempfile
+        d = system_dict(spec)
+        parent = None
+        if isinstance(d.get("units"), dict):
+            parent = d.pop("units")
+        tmp = tempfile.mkdtemp(prefix="vsys-")
+        try:
+            path = os.path.join(tmp, "system.json")
+            with open(path, "w", encoding="utf-8") as f:
+                json.dump(d, f)
+            if route == "file":
+                if parent is None:
+                    return S.load_rdsystem(path)
+                return S.load_rdsystem(path, parent_units_system=US(parent))
+            sd = {"system": path, "t_sample": [0]}
+            if parent is not None:
+                sd["units"] = dict(parent)
+            return S.rdscript_from_dict(sd).system
+        finally:
+            shutil.rmtree(tmp, ignore_errors=True)
     kw = {}
     if spec["state"] is not None:
         vals, u = state_values(spec)
@@ -189,7 +216,18 @@ def build_script(sc):
     kw = {}
     if sc.get("t_max") is not None:
         kw["t_max"] = sc["t_max"]
-    return S.RDScript(system, list(sc["t_sample"]), time_step=sc.get("time_step", 1e-3),
-                      sampling_policy=sc.get("policy", "on_t_sample"),
-                      sampling_interval=sc.get("interval", 1.0), rng_seed=sc.get("seed"),
-                      init_state_processing=sc.get("mode", "auto"), units_system=US(sc["units"]), **kw)
+    route = sc.get("script_route", "ctor")
+    mode = sc.get("mode", "auto")
+    if not (route == "ctor-default" and mode == "auto"):       # "ctor-default": the default mode is not spelled out
+        kw["init_state_processing"] = mode
+    script = S.RDScript(system, list(sc["t_sample"]), time_step=sc.get("time_step", 1e-3),
+                        sampling_policy=sc.get("policy", "on_t_sample"),
+                        sampling_interval=sc.get("interval", 1.0), rng_seed=sc.get("seed"),
+                        units_system=US(sc["units"]), **kw)
+    if route in ("dict", "dict-default"):
+        # through the dictionary reader; "dict-default": a dictionary that does not mention the (default) mode
+        d = S.rdscript_to_dict(script)
+        if route == "dict-default" and mode == "auto":
+            d.pop("init_state_processing", None)
+        script = S.rdscript_from_dict(d)
+    return script
